@@ -116,6 +116,22 @@ func mustTerm(v value) *Term {
 	return t
 }
 
+type poolObj struct {
+	pool *value
+	obj  *value
+}
+
+// poolObjKey identifies a pooled object for the happens-before edge Put(x) -> Get()=x.
+func poolObjKey(pool *value, x value) interface{} {
+	if it, ok := x.(iface); ok {
+		x = it.v
+	}
+	if p, ok := x.(*value); ok && p != nil {
+		return poolObj{pool, p}
+	}
+	return pool
+}
+
 func poolNew(fr *frame, pool *value) value {
 	p := (*pool).(structure)
 	newf := p[len(p)-1]
@@ -466,8 +482,13 @@ func init() {
 		p.sched.yield("Pool.Get")
 		bag := pm.bags[key]
 		pm.gets++
-		if s := p.sched; s.multi() {
-			s.cur.vc.join(&s.obj(key).vc)
+		// happens-before: as in the real runtime, Put(x) is ordered before the Get that returns x — an edge
+		// per object, not per pool (taken below once the object is chosen)
+		acquire := func(x value) value {
+			if s := p.sched; s.multi() {
+				s.cur.vc.join(&s.obj(poolObjKey(key, x)).vc)
+			}
+			return x
 		}
 		if len(bag) == 0 {
 			return poolNew(fr, key)
@@ -499,7 +520,7 @@ func init() {
 		x := bag[k]
 		pm.bags[key] = append(append([]value{}, bag[:k]...), bag[k+1:]...)
 		pm.reuses++
-		return x
+		return acquire(x)
 	}
 	I["(*sync.Pool).Put"] = func(fr *frame, args []value) value {
 		p := fr.i.p
@@ -509,7 +530,7 @@ func init() {
 		}
 		p.pool.bags[key] = append(p.pool.bags[key], args[1])
 		if s := p.sched; s.multi() {
-			o := s.obj(key)
+			o := s.obj(poolObjKey(key, args[1]))
 			o.vc.join(&s.cur.vc)
 			s.cur.vc[s.cur.id]++
 		}
